@@ -764,6 +764,77 @@ theorem validators_use_their_decoders :
     ruleOfValidator (validatorOf false) = sigRuleFor false ∧ ruleOfValidator (validatorOf true) = sigRuleFor true ∧
     validateParams = ["ctx", "bridgerAddr", "signatureAddr", "signature", "checkpoint"] := by decide
 
+/-! ## 11. (round 3) genesis import of stored confirmations — `InitGenesis` files them by BRIDGER account -/
+
+/-- what the source compares (regenerated): both imported confirmation lists are filed under the oracle whose current
+BRIDGER account equals the confirmation's — not under the oracle whose external key signed it -/
+theorem genesis_import_matches_by_bridger :
+    genesisConfirmMatch = [("BatchConfirms", "confirm.BridgerAddress", "==", "oracle.BridgerAddress", "SetBatchConfirm"),
+      ("OracleSetConfirms", "confirm.BridgerAddress", "==", "oracle.BridgerAddress", "SetOracleSetConfirm")] := by decide
+
+/-- `_partial`: while no bridger account has changed hands — the oracle the confirmation is stored under is still registered
+with the bridger the confirmation was submitted from, and bridger accounts are unique in the registry — the import files a
+stored confirmation under exactly its own oracle.  Missing for the full statement: bridger accounts DO change hands
+(`MsgUnbondedOracle` + `MsgBondedOracle`, `EditBridger`), see `genesis_import_misfiles` -/
+theorem genesis_import_keeps_owner_partial (list : String) (hl : list = "BatchConfirms" ∨ list = "OracleSetConfirms")
+    (oracles : List (Nat × OracleRec)) (e : Entry) (r : OracleRec)
+    (hkeys : (oracles.map (·.1)).Nodup) (hmem : (e.oracle, r) ∈ oracles) (hb : r.bridger = e.bridger)
+    (huniq : ∀ p ∈ oracles, p.2.bridger = e.bridger → p.1 = e.oracle) :
+    importOwners (genesisCmpOf list) oracles e = [e.oracle] := by
+  have hc : genesisCmpOf list = (list, "confirm.BridgerAddress", "==", "oracle.BridgerAddress",
+      if list = "BatchConfirms" then "SetBatchConfirm" else "SetOracleSetConfirm") := by
+    rcases hl with rfl | rfl <;> decide
+  have hm : ∀ p : Nat × OracleRec, genesisMatches (genesisCmpOf list) e p.2 = (e.bridger == p.2.bridger) := by
+    intro p; rw [hc]; simp [genesisMatches, genesisSideC, genesisSideO]
+  unfold importOwners
+  simp only [hm]
+  induction oracles with
+  | nil => simp at hmem
+  | cons p rest ih =>
+    simp only [List.map_cons, List.nodup_cons] at hkeys
+    by_cases hp : p = (e.oracle, r)
+    · subst hp
+      have hrest : rest.filter (fun q => e.bridger == q.2.bridger) = [] := by
+        rw [List.filter_eq_nil_iff]
+        intro q hq hqb
+        have := huniq q (by simp [hq]) (by simpa using (beq_iff_eq.1 hqb).symm)
+        exact hkeys.1 (by rw [← this]; exact List.mem_map_of_mem (f := (·.1)) hq)
+      simp [List.filter_cons, hb, hrest]
+    · have hmem' : (e.oracle, r) ∈ rest := by
+        rcases List.mem_cons.1 hmem with h | h
+        · exact absurd h.symm hp
+        · exact h
+      have hne : ¬ (e.bridger == p.2.bridger) = true := by
+        intro hqb
+        have h1 := huniq p (by simp) (by simpa using (beq_iff_eq.1 hqb).symm)
+        exact hkeys.1 (by rw [h1]; exact List.mem_map_of_mem (f := (·.1)) hmem')
+      simp only [List.filter_cons, hne, if_false]
+      exact ih hkeys.2 hmem' (fun q hq => huniq q (by simp [hq]))
+
+/-- the full statement is FALSE of the code as it is: a registry and a stored confirmation (oracle 1 confirmed from bridger
+"X"; oracle 1 is gone, oracle 2 registered with bridger "X" and its own external key) for which the import files the
+confirmation under oracle 2 — an oracle whose external address is not the confirmation's (replayed on the real keeper by the
+harness: `genesisBridgerReuse`, fixes/C12-genesis-confirm-owner.md) — while matching by external address files it nowhere -/
+theorem genesis_import_misfiles :
+    let e : Entry := ⟨.oracleSet 7, 1, "X", "extA", [9], [1, 2, 3], ⟨"X", "extA"⟩⟩
+    let registry : List (Nat × OracleRec) := [(2, ⟨"X", "extB"⟩)]
+    importOwners (genesisCmpOf "OracleSetConfirms") registry e = [2] ∧
+    (registry.lookup 2).map (·.external) ≠ some e.external ∧
+    importOwners ("OracleSetConfirms", "confirm.ExternalAddress", "==", "oracle.ExternalAddress", "SetOracleSetConfirm") registry e = [] := by
+  decide
+
+/-- with the repair (match by external address) the owner is right whatever happened to the bridger accounts: external
+addresses are unique in the registry and an oracle's record keeps its external address -/
+theorem genesis_import_by_external_keeps_owner (list store : String) (oracles : List (Nat × OracleRec)) (e : Entry)
+    (huniq : ∀ p ∈ oracles, p.2.external = e.external → p.1 = e.oracle) :
+    ∀ o ∈ importOwners (list, "confirm.ExternalAddress", "==", "oracle.ExternalAddress", store) oracles e, o = e.oracle := by
+  intro o ho
+  simp only [importOwners, List.mem_map, List.mem_filter] at ho
+  obtain ⟨p, ⟨hp, hm⟩, rfl⟩ := ho
+  apply huniq p hp
+  simp [genesisMatches, genesisSideC, genesisSideO] at hm
+  exact hm.symm
+
 /-! ## non-vacuity -/
 
 /-- a well-formed, int64-safe oracle set with members exists -/
@@ -880,6 +951,17 @@ example :
     errOf' (vRun false okBy st m [] (validateProg.filter (fun s => s.fn != "oracle.BridgerAddress != bridgerAddr")) {}) = none ∧
     errOf' (vRun false tronOnly st { m with bridger := "bridgerY" } [] validateProg {}) = some .badSig ∧
     errOf' (vRun false tronOnly st { m with bridger := "bridgerY" } [] (validateProg.map swap) {}) = none := by
+  decide
+
+
+/-- `genesis_import_keeps_owner_partial` / `genesis_import_by_external_keeps_owner`: a registry in which no bridger account
+changed hands — the import files the confirmation under its own oracle, by either comparison -/
+example :
+    let e : Entry := ⟨.oracleSet 7, 1, "X", "extA", [9], [1, 2, 3], ⟨"X", "extA"⟩⟩
+    let registry : List (Nat × OracleRec) := [(1, ⟨"X", "extA"⟩), (2, ⟨"Y", "extB"⟩)]
+    (registry.map (·.1)).Nodup ∧ (e.oracle, (⟨"X", "extA"⟩ : OracleRec)) ∈ registry ∧
+    importOwners (genesisCmpOf "BatchConfirms") registry e = [1] ∧
+    importOwners ("BatchConfirms", "confirm.ExternalAddress", "==", "oracle.ExternalAddress", "SetBatchConfirm") registry e = [1] := by
   decide
 
 end FxVerif.Props.C12
